@@ -33,7 +33,7 @@ PROPS["C07"] = {
 }
 
 PROPS["C02"] = {
-    "units": ["h1_transfer_encoding", "h1_codec", "h1_dispatcher_io", "h1_chunked"],
+    "units": ["h1_transfer_encoding", "h1_codec", "h1_dispatcher_io", "h1_chunked", "h1_poll_request"],
     "kani": [],
     "technique": "Verus contracts on the extracted real TransferEncoding encoder against an RFC 7230 chunk-framing oracle (exact bytes appended, length enforcement, terminator exactly once, short body is an error)",
     "level_text": "deductive proof, for all chunk contents/lengths and encoder states, that TransferEncoding::encode/encode_eof append exactly the oracle's bytes (chunked: hex CRLF data CRLF, terminator once; sized: cut to the declared length; eof: pass-through) and that a short sized body yields UnexpectedEof; MessageEncoder::encode chooses the body framing from (HEAD?, body size, chunked allowed, upgrade stream) of THIS message only; Codec::encode encodes the head with exactly the context recorded when that request was decoded; poll_flush writes every buffered byte exactly once and in order; and the theorem decode-of-encode (lemma_decode_of_encode in unit h1_chunked, over the shared wire oracle specs/chunked_wire.vs): for every list of non-empty chunks, the bytes the chunked encoder writes are decoded by the RFC 7230 automaton to exactly their concatenation, ending in state End with nothing left over",
